@@ -19,7 +19,8 @@ the real events, contents and index lookups at every step (F6 included).
 import os
 
 THEOREMS = ["IstioModel.C16.MonitorTheorems", "IstioModel.C16.RuntimeTheorems", "IstioModel.C16.IndexTheorems",
-            "IstioModel.C16.JoinTheorems", "IstioModel.C16.DisciplineTheorems"]
+            "IstioModel.C16.JoinTheorems", "IstioModel.C16.DisciplineTheorems",
+            "IstioModel.C16.JoinModelTheorems"]
 
 F6_FP = "krt:many:key-moves-between-parents:new-parent-first"
 F6_WHAT = ("krt manyCollection loses an output key that moves to another parent input when the new parent is "
@@ -150,7 +151,7 @@ def run_stream(ctx, stream, ncases):
     cdir = os.path.normpath(cdir)
     if os.path.isdir(cdir):
         for f in sorted(os.listdir(cdir)):
-            if f.startswith(stream + ".") and f.endswith(".ops"):
+            if corpus_for(stream, f):
                 files.append(("corpus:" + f, os.path.join(cdir, f)))
     if ncases > 0:
         ops = os.path.join(ctx.work, "%s.gen.ops" % stream)
@@ -196,11 +197,11 @@ def run_stream(ctx, stream, ncases):
             rep = {"stream": stream, "ops": case_lines, "source": tag,
                    "first_difference_at_op": idx, "implementation": a, "specification": b,
                    "trace": ctx.read_lines(impl2 + ".trace")[:200] if ok2 and real2 else None}
-            if stream == "exact" and fp != "krt:crash":
+            if stream in ("exact", "joinx") and fp != "krt:crash":
                 # the runtime model (object of the runtime theorems) no longer behaves like the code: a broken
                 # correspondence, not by itself a violation of the property (the other streams search for one)
-                ctx.tie_broken("correspondence:exact",
-                               "Model.lean and the real manyCollection differ at op '%s'\n impl : %s\n model: %s"
+                ctx.tie_broken("correspondence:%s" % stream,
+                               "the runtime model and the real collection differ at op '%s'\n impl : %s\n model: %s"
                                % (case_lines[idx], a[:500], b[:500]), rep)
             else:
                 ctx.violation(fp, what, rep, True)
@@ -211,31 +212,39 @@ def run_stream(ctx, stream, ncases):
 
 
 def run_oracle(ctx, stream):
-    """Second line, independent of the Lean side: the harness evaluates the property itself in Go."""
+    """Second line, independent of the Lean side: the harness evaluates the property itself in Go, on the
+    corpus files and on the generated cases of the stream."""
+    files = []
+    cdir = os.path.normpath(os.path.join(os.path.dirname(ctx.work), "..", "harness", "corpus", ctx.pid))
+    if os.path.isdir(cdir):
+        files += [os.path.join(cdir, f) for f in sorted(os.listdir(cdir)) if corpus_for(stream, f)]
     g = os.path.join(ctx.work, "%s.gen.ops" % stream)
-    if not os.path.exists(g):
-        return
-    out = g + ".verdict"
-    if os.path.exists(out):
-        os.remove(out)
-    rc, log = ctx.harness("oracle", stream, g, out)
-    if rc != 0 or not os.path.exists(out):
-        ctx.tie_broken("oracle:%s" % stream, "harness oracle rc=%d: %s" % (rc, log[-2000:]))
-        return
-    verdicts = ctx.read_lines(out)
-    ctx.count("oracle.%s.cases" % stream, len(verdicts))
-    ops = ctx.read_lines(g)
-    cases = split_cases(ops)
-    for i, v in enumerate(verdicts):
-        if v.startswith("FAIL") and i < len(cases):
-            s, e = cases[i]
-            clause = v.split()[1] if len(v.split()) > 1 else "?"
-            if clause.startswith("f6:"):
-                ctx.violation(F6_FP, F6_WHAT, {"stream": stream, "ops": ops[s:e], "oracle_verdict": v}, True)
-            else:
-                ctx.violation("krt:oracle:%s" % clause,
-                              "the Go-side evaluation of the property fails (%s)" % v,
-                              {"stream": stream, "ops": ops[s:e], "oracle_verdict": v}, True)
+    if os.path.exists(g):
+        files.append(g)
+    for path in files:
+        out = os.path.join(ctx.work, "%s.oracle.verdict" % stream)
+        if os.path.exists(out):
+            os.remove(out)
+        rc, log = ctx.harness("oracle", stream, path, out)
+        if rc != 0 or not os.path.exists(out):
+            ctx.tie_broken("oracle:%s" % stream, "harness oracle rc=%d on %s: %s" % (rc, os.path.basename(path), log[-2000:]))
+            continue
+        verdicts = ctx.read_lines(out)
+        ctx.count("oracle.%s.cases" % stream, len(verdicts))
+        ops = ctx.read_lines(path)
+        cases = split_cases(ops)
+        for i, v in enumerate(verdicts):
+            if v.startswith("FAIL") and i < len(cases):
+                s, e = cases[i]
+                clause = v.split()[1] if len(v.split()) > 1 else "?"
+                flagged = any(f in ops[s].split()[4:] for f in FLAGS)
+                if clause.startswith("f6:") and flagged:
+                    fp, what = known_class(stream)
+                    ctx.violation(fp, what, {"stream": stream, "ops": ops[s:e], "oracle_verdict": v}, True)
+                else:
+                    ctx.violation("krt:oracle:%s" % clause,
+                                  "the Go-side evaluation of the property fails (%s)" % v,
+                                  {"stream": stream, "ops": ops[s:e], "oracle_verdict": v}, True)
 
 
 def run(ctx):
@@ -273,7 +282,8 @@ def run(ctx):
     # last: the exact correspondence of the runtime model (a difference here with no violation above ends as
     # `no-failing-input-found`)
     run_stream(ctx, "exact", ctx.n(1500, 40000))
-    for stream in ("krt", "krtf6"):
+    run_stream(ctx, "joinx", ctx.n(600, 15000))
+    for stream in ("krt", "krtf6", "join", "joinr", "joinm", "mem"):
         run_oracle(ctx, stream)
 
 
